@@ -49,6 +49,9 @@ Env == <<
   [n |-> "Nul", kind |-> "type", params |-> <<"X">>, ty |-> MappedK("K", KeyOf(Param("X")), Uni(<<Index(Param("X"), Param("K")), TNull>>), FALSE)],
   [n |-> "PG",  kind |-> "type", params |-> <<"X">>, ty |-> Util("Partial", <<OO(<<Prop("a", Param("X"), FALSE), Prop("b", Arr(Param("X")), FALSE)>>)>>)],
   [n |-> "CG",  kind |-> "type", params |-> <<"X">>, ty |-> Cond(Param("X"), TString, LS("s"), LS("o"))],
+  \* a tagged tree: a member that is recursive through an array, next to a leaf (operands of Exclude / Extract)
+  [n |-> "Lf",  kind |-> "type", ty |-> OO(<<Prop("kind", LS("leaf"), FALSE), Prop("v", TNumber, FALSE)>>)],
+  [n |-> "Br",  kind |-> "type", ty |-> OO(<<Prop("kind", LS("branch"), FALSE), Prop("children", Arr(Uni(<<Ref("Lf"), Ref("Br")>>)), FALSE)>>)],
   \* a generic interface whose extends clause mentions its type parameter (named like the declared alias X = number)
   [n |-> "BaseG", kind |-> "interface", params |-> <<"X">>, ty |-> OO(<<Prop("v", Param("X"), FALSE)>>), ext |-> <<>>],
   [n |-> "BoxG",  kind |-> "interface", params |-> <<"X">>, ty |-> OO(<<Prop("label", TString, FALSE)>>), ext |-> <<App("BaseG", <<Param("X")>>)>>],
@@ -99,6 +102,11 @@ ULeaves == <<
   App("Tagged", <<LS("point")>>), App("Plain", <<LS("point")>>), App("Nul", <<RP>>), App("Nul", <<RO>>), App("PG", <<TNumber>>),
   App("CG", <<LS("a")>>), App("CG", <<TNumber>>), App("G", <<MappedK("K", RK, Param("K"), FALSE)>>),
   App("Two", <<TString, TNumber>>), App("Two", <<TNumber, TString>>), App("Two", <<App("Two", <<LS("a"), LS("b")>>), TNull>>),
+  \* Exclude / Extract over a union with a recursive member, by a type that covers that member through another atom
+  Util("Exclude", <<Uni(<<Ref("Lf"), Ref("Br")>>), OO(<<Prop("kind", LS("branch"), FALSE)>>)>>),
+  Util("Exclude", <<Uni(<<Ref("Lf"), Ref("Br")>>), Ref("Br")>>),
+  Util("Extract", <<Uni(<<Ref("Lf"), Ref("Br"), TString>>), OO(<<Prop("kind", LS("branch"), FALSE)>>)>>),
+  Util("Exclude", <<Uni(<<Ref("R1"), TNumber, TString>>), TString>>),
   \* the explicit optional modifier; a homomorphic mapped type in a generic; instances of a generic interface with an extends clause
   MappedPlus(RK, TNumber), MappedPlus(KeyOf(RP), TBoolean),
   App("BoxG", <<TString>>), OO(<<Prop("b", App("BoxG", <<TBoolean>>), FALSE), Prop("x", Ref("X"), FALSE)>>),
